@@ -34,10 +34,13 @@ enum ObserverOp {
     Snapshot,
     SnapshotTwice,
     TryUpdateNewer,
+    /// a base time far ahead (+1 000 000 ms) of the committed one
+    TryUpdateFarAhead,
     TryUpdateOlder,
     Sequence,
 }
-const OBSERVER_OPS: [ObserverOp; 5] = [ObserverOp::Snapshot, ObserverOp::SnapshotTwice, ObserverOp::TryUpdateNewer, ObserverOp::TryUpdateOlder, ObserverOp::Sequence];
+const OBSERVER_OPS: [ObserverOp; 6] = [ObserverOp::Snapshot, ObserverOp::SnapshotTwice, ObserverOp::TryUpdateNewer, ObserverOp::TryUpdateFarAhead, ObserverOp::TryUpdateOlder, ObserverOp::Sequence];
+const FAR: u64 = 1_000_000;
 
 #[derive(Clone, Debug, PartialEq, Eq)]
 struct Scenario {
@@ -142,7 +145,7 @@ fn run_scenario(sc: &Scenario) -> Result<Outcome, String> {
             if !CHECK.check(t, v) {
                 err.get_or_insert(format!("final snapshot is torn (base {})", t));
             }
-            if t < expect_final || ![5u64, 10, 20, 30, 40].contains(&t) {
+            if t < expect_final || ![5u64, 10, 20, 30, 40, FAR].contains(&t) {
                 err.get_or_insert(format!("final base time {} (accepted updates so far had reached {})", t, expect_final));
             }
             match err {
@@ -201,6 +204,7 @@ fn run_controlled(sc: &Scenario, abt: &Arc<AtomicBaseTime>, ctl: &Arc<Controller
                     }
                 }
                 ObserverOp::TryUpdateNewer => out.push((40, true, abt.try_update(pair(40)))),
+                ObserverOp::TryUpdateFarAhead => out.push((FAR, true, abt.try_update(pair(FAR)))),
                 ObserverOp::TryUpdateOlder => out.push((1, true, abt.try_update(pair(1)))),
                 ObserverOp::Sequence => out.push((abt.sequence(), true, true)),
             }
@@ -291,7 +295,7 @@ fn run_controlled(sc: &Scenario, abt: &Arc<AtomicBaseTime>, ctl: &Arc<Controller
     let results = observer_result.lock().unwrap().clone();
     outcome.observer_result = format!("{:?}", results);
     // which frozen writers will still land their update (they are released afterwards)
-    let allowed: Vec<u64> = vec![5, 10, 20, 30, 40];
+    let allowed: Vec<u64> = vec![5, 10, 20, 30, 40, FAR];
     match sc.observer {
         ObserverOp::Snapshot | ObserverOp::SnapshotTwice => {
             let n = if sc.observer == ObserverOp::Snapshot { 1 } else { 2 };
@@ -316,7 +320,7 @@ fn run_controlled(sc: &Scenario, abt: &Arc<AtomicBaseTime>, ctl: &Arc<Controller
                 return Err((format!("snapshot performed {} atomic loads; {} write(s) completed during its read, so at most {} are justified (steps: {:?})", loads, commits_during_observer, max_loads, events), handles));
             }
         }
-        ObserverOp::TryUpdateNewer | ObserverOp::TryUpdateOlder => {
+        ObserverOp::TryUpdateNewer | ObserverOp::TryUpdateFarAhead | ObserverOp::TryUpdateOlder => {
             if trylocks != 1 {
                 return Err((format!("try_update performed {} try_lock operations", trylocks), handles));
             }
@@ -332,11 +336,11 @@ fn run_controlled(sc: &Scenario, abt: &Arc<AtomicBaseTime>, ctl: &Arc<Controller
             if sc.observer == ObserverOp::TryUpdateOlder && got {
                 return Err(("try_update accepted an older base time".to_string(), handles));
             }
-            if sc.observer == ObserverOp::TryUpdateNewer && acquired && !sc.poisoned && !got {
+            if matches!(sc.observer, ObserverOp::TryUpdateNewer | ObserverOp::TryUpdateFarAhead) && acquired && !sc.poisoned && !got {
                 return Err(("try_update acquired the lock with a newer base time but returned false".to_string(), handles));
             }
             if got {
-                accepted_max = accepted_max.max(40);
+                accepted_max = accepted_max.max(if sc.observer == ObserverOp::TryUpdateFarAhead { FAR } else { 40 });
             }
         }
         ObserverOp::Sequence => {
@@ -368,7 +372,7 @@ fn scenarios(tier: Tier) -> Vec<Scenario> {
                 let max_pause = match observer {
                     ObserverOp::Snapshot => 4,
                     ObserverOp::SnapshotTwice => 8,
-                    ObserverOp::TryUpdateNewer | ObserverOp::TryUpdateOlder => 8,
+                    ObserverOp::TryUpdateNewer | ObserverOp::TryUpdateFarAhead | ObserverOp::TryUpdateOlder => 8,
                     ObserverOp::Sequence => 1,
                 };
                 for observer_pause in 0..=max_pause {
@@ -538,6 +542,9 @@ fn run(ctx: &Ctx) -> Report {
                 }
             }
             Err(e) => {
+                if e.starts_with("harness:") {
+                    machinery_failure(&format!("{} in scenario {}", e, sc.render()));
+                }
                 let again = run_checked(sc);
                 if again.is_ok() {
                     machinery_failure(&format!("C18 violation did not reproduce: {} / {}", sc.render(), e));
@@ -548,7 +555,7 @@ fn run(ctx: &Ctx) -> Report {
         }
     }
     rep.max_depth = 3;
-    rep.note(format!("{} scenarios: start state (1 or 2 prior updates, lock poisoned or not) x observer in {{snapshot, snapshot x2, try_update(newer), try_update(older), sequence}} paused after every one of its own steps (0 = not started) x {{no / one writer completing a whole update meanwhile}} x one writer in {{update(newer), update(older), try_update(newer)}} suspended after every one of its steps 0..=11 (or none); plus two suspended writers at every pair of steps; then the observer runs alone to completion", all.len()));
+    rep.note(format!("{} scenarios: start state (1 or 2 prior updates, lock poisoned or not) x observer in {{snapshot, snapshot x2, try_update(newer), try_update(+1 000 000 ms), try_update(older), sequence}} paused after every one of its own steps (0 = not started) x {{no / one writer completing a whole update meanwhile}} x one writer in {{update(newer), update(older), try_update(newer)}} suspended after every one of its steps 0..=11 (or none); plus two suspended writers at every pair of steps; then the observer runs alone to completion", all.len()));
     rep
 }
 
@@ -585,5 +592,6 @@ fn main() {
             "step points are the stand-in operations of hook H3 (every atomic access and lock operation of atomic_base_time.rs)".into(),
             "at most two suspended writers plus one completed writer".into(),
         ],
+        decode_breadcrumb: None,
     });
 }
